@@ -385,7 +385,11 @@ func lwStandard(c *ctx, r *Report, judge func(cs Case) (string, string), per int
 }
 
 // exStandard: the `exprwf` tie on the corpus, the mutants of the base workflows and `per` mutants of each corpus file
-func exStandard(c *ctx, r *Report, judge func(cs Case) (string, string), per int, bases bool) error {
+func exStandard(c *ctx, r *Report, judge func(cs Case) (string, string), per int, bases bool, baseLimit ...int) error {
+	bl := 0
+	if len(baseLimit) > 0 {
+		bl = baseLimit[0]
+	}
 	corpus := pwCorpus()
 	n0 := r.Evaluations
 	if err := exTie(c, r, corpus, "corpus", judge); err != nil {
@@ -394,14 +398,14 @@ func exStandard(c *ctx, r *Report, judge func(cs Case) (string, string), per int
 	rng := rand.New(rand.NewSource(c.seed + 13))
 	if bases {
 		for _, name := range []string{"a.yml", "b.yml", "c.yml"} {
-			if err := exTie(c, r, pwMutants(wfBases[name], rng, 0), "mutant of base "+name, judge); err != nil {
+			if err := exTie(c, r, pwMutants(wfBases[name], rng, bl), "mutant of base "+name, judge); err != nil {
 				return err
 			}
 		}
 	}
 	if bases {
 		for _, name := range []string{"a.yml", "b.yml", "c.yml"} {
-			if err := exTie(c, r, exprMutants(wfBases[name], rng, 0), "expression planted in base "+name, judge); err != nil {
+			if err := exTie(c, r, exprMutants(wfBases[name], rng, bl), "expression planted in base "+name, judge); err != nil {
 				return err
 			}
 		}
